@@ -9,7 +9,7 @@ from typing import Dict, List, Optional, Set, Tuple
 from ..cfg import Flow, Node, build_cfg
 from ..core import (AnalysisError, FuncInfo, Index, Result, call_name, call_recv, const_str, dotted, iter_calls,
                     norm_stmt, src, walk_no_nested)
-from ..util import names_in, params, single_assignments
+from ..util import closure_rule, names_in, params, single_assignments
 
 BPTK = "BPTK_Py/bptk.py"
 RUNNER = "BPTK_Py/scenariorunners/sd_runner.py"
@@ -31,16 +31,8 @@ def _depends_on(expr: ast.AST, assigns: Dict[str, List[ast.AST]], pred, depth: i
     return False
 
 
-def check_c09(idx: Index, tier: str, res: Result) -> None:
-    res.explanation = ("(1) each of session_state starttime/stoptime/dt is data-dependent on the corresponding attribute of the selected "
-                       "scenario objects; (2) the clock advance is normalised, logs are keyed by the pre-advance step, settings are applied "
-                       "before the step's start() and the SdSimulation is kept between steps; (3) a step simulates exactly [step, step]; "
-                       "(4) the dataframe, dict and JSON values come from one series expression; (5) the REST handlers pass the results of "
-                       "run_scenarios/run_step/session_results through a serialiser untouched; (6) every session_state key read anywhere is "
-                       "written by begin_session.")
-    res.rules = ["DERIVE: def-use from scenario attributes to the session run specs", "STEP: ordering in run_step / run_scenario_step",
-                 "SERIES: one series expression for all formats", "PASSTHROUGH: handlers compute nothing", "KEYS: session_state reads vs writes"]
-    res.not_decided = ["value equality across channels (numeric)", "HTTP serialisation fidelity of jsonpickle/json for floats"]
+def session_grid_rules(idx: Index, res: Result, rule: str = "DERIVE"):
+    """Shared by C09 and C05: the session's grid (start, stop, dt and the clock's first value) is the selected scenarios' grid."""
     bs = idx.func(BPTK, "bptk.begin_session")
     assigns = single_assignments(bs.node)
     dicts = [n for n in walk_no_nested(bs.node) if isinstance(n, ast.Dict) and {"step", "starttime", "stoptime", "dt"} <= {const_str(k) for k in n.keys if k is not None}]
@@ -51,20 +43,38 @@ def check_c09(idx: Index, tier: str, res: Result) -> None:
         def pred(n, key=key):
             return isinstance(n, ast.Attribute) and n.attr == key and isinstance(n.value, ast.Name) and "scenario" in n.value.id
         ok = _depends_on(st[key], assigns, pred)
-        res.check("DERIVE", "session %s is derived from the selected scenarios" % key, ok, bs.loc(st[key]), bs.qual, '"%s": %s' % (key, src(st[key])),
+        res.check(rule, "session %s is derived from the selected scenarios" % key, ok, bs.loc(st[key]), bs.qual, '"%s": %s' % (key, src(st[key])),
                   "session_state['%s'] is %s, which does not depend on any scenario's %s: %s" % (
                       key, src(st[key]), key,
                       "the REST begin-session cannot pass dt, so a model with dt=0.1 is stepped on 0, 1, 2, ... while its batch run has 10 "
                       "rows per time unit" if key == "dt" else "the session grid differs from the batch run's"),
-                  key="DERIVE/begin_session/%s" % key)
+                  key="%s/begin_session/%s" % (rule, key))
     ok = src(st["step"]) == src(st["starttime"])
-    res.check("DERIVE", "the session clock starts at the session start time", ok, bs.loc(), bs.qual, '"step": %s' % src(st["step"]),
-              "the clock starts at %s, the session start time is %s" % (src(st["step"]), src(st["starttime"])), key="DERIVE/begin_session/step")
+    res.check(rule, "the session clock starts at the session start time", ok, bs.loc(), bs.qual, '"step": %s' % src(st["step"]),
+              "the clock starts at %s, the session start time is %s" % (src(st["step"]), src(st["starttime"])), key=rule + "/begin_session/step")
     mx = [c for c in iter_calls(bs.node) if call_name(c) == "max" and any("starttime" in src(a) for a in c.args)]
     mn = [c for c in iter_calls(bs.node) if call_name(c) == "min" and any("stoptime" in src(a) for a in c.args)]
-    res.check("DERIVE", "start = max over scenarios, stop = min over scenarios", bool(mx) and bool(mn), bs.loc(), bs.qual,
+    res.check(rule, "start = max over scenarios, stop = min over scenarios", bool(mx) and bool(mn), bs.loc(), bs.qual,
               "%s / %s" % (src(mx[0]) if mx else "?", src(mn[0]) if mn else "?"), "session start/stop are not the max/min over the selected scenarios",
-              key="DERIVE/begin_session/max-min")
+              key=rule + "/begin_session/max-min")
+
+    return bs, dicts
+
+
+def check_c09(idx: Index, tier: str, res: Result) -> None:
+    res.explanation = ("(1) each of session_state starttime/stoptime/dt is data-dependent on the corresponding attribute of the selected "
+                       "scenario objects; (2) the clock advance is normalised, logs are keyed by the pre-advance step, settings are applied "
+                       "before the step's start() and the SdSimulation is kept between steps; (3) a step simulates exactly [step, step]; "
+                       "(4) the dataframe, dict and JSON values come from one series expression; (5) the REST handlers pass the results of "
+                       "run_scenarios/run_step/session_results through a serialiser untouched; (6) every session_state key read anywhere is "
+                       "written by begin_session.")
+    res.rules = ["DERIVE: def-use from scenario attributes to the session run specs", "STEP: ordering in run_step / run_scenario_step",
+                 "SERIES: one series expression for all formats", "PASSTHROUGH: handlers compute nothing", "KEYS: session_state reads vs writes"]
+    res.not_decided = ["value equality across channels (numeric)", "HTTP serialisation fidelity of jsonpickle/json for floats"]
+    bs, dicts = session_grid_rules(idx, res)
+    # the batch run sweeps the model's own grid (start, stop, dt of the model the scenario carries) - the grid the session clock is derived from
+    from .sddsl_templates import _sweep
+    _sweep(idx, res)
 
     from .memo import selected_scenarios_without
     bad = selected_scenarios_without(bs, "reset_scenario_cache")
@@ -120,6 +130,7 @@ def check_c09(idx: Index, tier: str, res: Result) -> None:
     ok = len(starts) == 1 and all(c.lineno < starts[0].lineno for c in applies)
     res.check("STEP", "step settings are applied before the step is simulated", ok, rss.loc(), rss.qual, "change_* ... start()",
               "settings passed with a step are applied after the step was simulated: they take effect one step late", key="STEP/run_scenario_step/apply-before-start")
+    closure_rule(idx, res, "STEP", [(RUNNER, "SdRunner.run_scenario_step"), (BPTK, "bptk.run_step"), (BPTK, "bptk.begin_session")])
     kw = {k.arg: src(k.value) for k in starts[0].keywords} if starts else {}
     ok = kw.get("start") == "step" and kw.get("until") == "step" and kw.get("equations") == "equations"
     res.check("STEP", "a step simulates exactly [step, step] for the session's equations", ok, rss.loc(starts[0]) if starts else rss.loc(), rss.qual,
